@@ -1646,6 +1646,13 @@ class Wtp:
                         # parent frame would be different).
                         self.expand_stack.append("ARGVAL-{}".format(k))
                         arg = expand_recurse(arg, parent, True)
+                        # Square brackets that are not a link travel as
+                        # stand-in characters through the encoding; the value
+                        # is complete now and gets them back (template_fn
+                        # must not see the stand-ins)
+                        arg = arg.replace(MAGIC_LBRACKET_CHAR, "[").replace(
+                            MAGIC_RBRACKET_CHAR, "]"
+                        )
                         if is_named:
                             # whitespace produced by the expansion of a named
                             # value is stripped as well
